@@ -70,6 +70,7 @@ def correspond(scenarios, stats=None, k1=None):
             try:
                 mout = S.parse_out(line)
                 S.compare_op(op, run, rec, mout, stats)
+                S.compare_state(op, rec, mout, stats)
             except S.Mismatch as m:
                 failures.append({"index": idx, "op_index": j, "reason": str(m), "model_line": line[:400],
                                  "impl": {"raised": rec["raised"], "result": repr(rec["result"])[:400]}})
